@@ -1,4 +1,5 @@
 import GaeaVerif.Lemmas.StmtRelex
+import GaeaVerif.Lemmas.StmtFloat
 import GaeaVerif.Props.C12
 import GaeaVerif.Props.C14
 /-
@@ -22,10 +23,21 @@ import GaeaVerif.Props.C14
                               placeholder replaced by one literal of its argument
     C15_default_mode, C15_no_backslash_escapes_mode
                               the same, from `CalcParams`' own items
-    float parameters          `_partial`: in `C15_rewrite_structure` a float argument has to
-                              satisfy `ArgFits` (rendered as a bare word) by hypothesis, and
-                              that its numeral denotes the bound value is checked by the
-                              correspondence run only (Lean has no verified float printing)
+    argFits_float, argFits_all, C15_rewrite_structure_full (+ C15_default_mode_full, C15_no_backslash_escapes_mode_full)
+                              every float is rendered as a bare word (theorems about
+                              `Model/StmtGoFloat.lean`, the model of Go's `%v`), so `ArgFits` holds of
+                              every argument and the structure theorem needs no hypothesis about the
+                              arguments any more (`FitsShape`: one argument per placeholder, no glue)
+    float_param_numeric_literal, bound_float_finite
+                              a finite float is rendered as `[-] digits [. digits] [e ± digits]`, and
+                              `bindStmtArgs` only ever binds finite doubles (NaN / ±Inf refused)
+    float_param_within_half_ulp, float_param_zero, float_param_sign
+                              the literal denotes a decimal inside the rounding interval of the bound
+                              double (between the midpoints to its neighbours) — proved on the model
+                              of Go's shortest formatting, digit selection and `%e` / `%f` layout included
+    ReadsNearestDouble        named assumption (not proved; the server is not modelled): the server
+                              converts a numeric literal to the nearest double, ties to even
+    float_param_roundtrip     under that assumption the literal is read back as exactly the bound double
 -/
 namespace GaeaVerif.C15
 open GaeaVerif GaeaVerif.StmtLex GaeaVerif.StmtBind GaeaVerif.StmtCalcParams
@@ -309,5 +321,363 @@ theorem pinned_escape_witness :
 /-- Integers of every width: `bind_int_value` and `int_param_roundtrip` on -128 sent as TINYINT. -/
 example : bindInt [0x80] 0 1 false = .ok (.int (-128), 1) := by decide
 example : renderArg false (.int (-128)) = [0x2d, 0x31, 0x32, 0x38] := by decide
+
+/-! ### float parameters -/
+
+open GaeaVerif.StmtGoFloat GaeaVerif.StmtFloat in
+/-- **float_param_numeric_literal.**  A finite FLOAT / DOUBLE argument is
+    rendered as a numeric literal — an optional minus sign, digits, optionally
+    `.` and digits, optionally `e`, a sign and digits; it starts with a digit, or
+    with `-` and a digit (so it is none of `NaN`, `+Inf`, `-Inf`, which the pinned
+    code wrote into the statement). -/
+theorem float_param_numeric_literal (nbe dbl : Bool) (bits : Nat) (hf : finite dbl bits = true) :
+    NumLit (renderArg nbe (.float dbl bits)) ∧
+    ((∃ c r, renderArg nbe (.float dbl bits) = c :: r ∧ IsDig c) ∨
+     (∃ c r, renderArg nbe (.float dbl bits) = 0x2d :: c :: r ∧ IsDig c)) :=
+  ⟨fmtV_numLit dbl bits hf, numLit_head _ (fmtV_numLit dbl bits hf)⟩
+
+open GaeaVerif.StmtGoFloat GaeaVerif.StmtFloat in
+/-- Every float argument is rendered as a bare word: what `C15_rewrite_structure`
+    had to assume of floats (`ArgFits`) holds. -/
+theorem argFits_float (nbe dbl : Bool) (bits : Nat) : ArgFits nbe (.float dbl bits) :=
+  fmtV_word dbl bits
+
+/-- `ArgFits` holds of every argument: it is no hypothesis any more. -/
+theorem argFits_all (nbe : Bool) : ∀ a : Arg, ArgFits nbe a
+  | .null => argFits_null nbe
+  | .int v => argFits_int nbe v
+  | .float d bits => argFits_float nbe d bits
+  | .bytes b => argFits_bytes nbe b
+
+/-- The template and the argument list fit in shape: one argument per
+    placeholder, no placeholder glued to a `'…'` literal or to another
+    placeholder.  Nothing is asked of the arguments themselves. -/
+def FitsShape : List Tok → List Arg → Prop
+  | [], _ => True
+  | t :: ts, as =>
+    match t, as with
+    | .param, [] => False
+    | .param, _ :: as' => ts.head?.map isQ ≠ some true ∧ FitsShape ts as'
+    | .str q _, _ => (q = cSQuote → ts.head? ≠ some .param) ∧ FitsShape ts as
+    | _, _ => FitsShape ts as
+
+theorem fits_of_shape (nbe : Bool) : ∀ (toks : List Tok) (args : List Arg), FitsShape toks args → Fits nbe toks args
+  | [], _, _ => trivial
+  | t :: ts, as, h => by
+    cases t with
+    | param =>
+      cases as with
+      | nil => exact h
+      | cons a as' => exact ⟨argFits_all nbe a, h.1, fits_of_shape nbe ts as' h.2⟩
+    | str q s => exact ⟨h.1, fits_of_shape nbe ts as h.2⟩
+    | _ => exact fits_of_shape nbe ts as h
+
+/-- **C15_rewrite_structure_full.**  `C15_rewrite_structure` without any
+    hypothesis about the arguments: in either sql_mode, for every template and
+    every argument list of every type (NULL, integers, floats, byte strings)
+    with one argument per placeholder — no placeholder glued to a `'…'` literal
+    or to another placeholder —, the statement `GetRewriteSQL` produces is,
+    lexical element by lexical element, the template with each placeholder
+    replaced by the literal of its argument. -/
+theorem C15_rewrite_structure_full (nbe : Bool) (text : Bytes) (toks : List Tok) (args : List Arg)
+    (hl : lex nbe text = some toks) (hfit : FitsShape toks args) :
+    getRewriteSQL nbe (cutItems text 0 (paramOffsets 0 toks)) args = .ok (rawOf (substToks nbe toks args)) ∧
+    lex nbe (rawOf (substToks nbe toks args)) = some (substToks nbe toks args) :=
+  C15_rewrite_structure nbe text toks args hl (fits_of_shape nbe toks args hfit)
+
+/-- `C15_default_mode` without a hypothesis about the arguments. -/
+theorem C15_default_mode_full (text : Bytes) (toks : List Tok) (args : List Arg)
+    (hl : lex false text = some toks) (hfit : FitsShape toks args) :
+    ∃ n offs items, calcParams text = .ok (n, offs, items) ∧
+      getRewriteSQL false items args = .ok (rawOf (substToks false toks args)) ∧
+      lex false (rawOf (substToks false toks args)) = some (substToks false toks args) :=
+  C15_default_mode text toks args hl (fits_of_shape false toks args hfit)
+
+/-- `C15_no_backslash_escapes_mode` without a hypothesis about the arguments. -/
+theorem C15_no_backslash_escapes_mode_full (text : Bytes) (toks : List Tok) (args : List Arg)
+    (hl : lex true text = some toks) (hsame : lex false text = lex true text) (hfit : FitsShape toks args) :
+    ∃ n offs items, calcParams text = .ok (n, offs, items) ∧
+      getRewriteSQL true items args = .ok (rawOf (substToks true toks args)) ∧
+      lex true (rawOf (substToks true toks args)) = some (substToks true toks args) :=
+  C15_no_backslash_escapes_mode text toks args hl hsame (fits_of_shape true toks args hfit)
+
+/-- every template/argument pair of the earlier example fits in shape too -/
+example (b : Bytes) (f : Nat) : FitsShape [.param, .other 0x2c, .param] [.bytes b, .float true f] :=
+  ⟨by simp [isQ], by simp, trivial⟩
+
+/-- `?,?` with the double 0.1 and the string `a'b`: what `GetRewriteSQL` writes -/
+example : getRewriteSQL false (cutItems [0x3f, 0x2c, 0x3f] 0 (paramOffsets 0 [.param, .other 0x2c, .param]))
+    [.float true 0x3FB999999999999A, .bytes [0x61, 0x27, 0x62]] =
+    .ok [0x30, 0x2e, 0x31, 0x2c, 0x27, 0x61, 0x27, 0x27, 0x62, 0x27] := by decide
+
+/-! ### after the repair no NaN or infinity is ever bound -/
+
+theorem f32to64_finite (bits b64 : Nat) (h : f32to64 bits = some b64) : StmtGoFloat.finite true b64 = true := by
+  unfold f32to64 at h
+  simp only at h
+  have hs : bits / 2 ^ 31 % 2 ≤ 1 := by omega
+  have he : bits / 2 ^ 23 % 256 < 256 := Nat.mod_lt _ (by decide)
+  have hm : bits % 2 ^ 23 < 2 ^ 23 := Nat.mod_lt _ (by decide)
+  generalize bits / 2 ^ 31 % 2 = sign at h hs
+  generalize bits / 2 ^ 23 % 256 = e at h he
+  generalize bits % 2 ^ 23 = m at h hm
+  show decide (StmtGoFloat.expField true b64 ≠ 2 ^ StmtGoFloat.expbits true - 1) = true
+  simp only [StmtGoFloat.expField, StmtGoFloat.mantbits, StmtGoFloat.expbits, if_true, decide_eq_true_eq]
+  split at h
+  · cases h
+  · split at h
+    · split at h
+      · cases h; omega
+      · rename_i hm0
+        cases h
+        -- subnormal float32: m = 2^k + r with r < 2^k, k < 23
+        have hk1 : 2 ^ m.log2 ≤ m := Nat.log2_self_le hm0
+        have hk2 : m < 2 ^ (m.log2 + 1) := Nat.lt_log2_self
+        have hk : m.log2 < 23 := by
+          rcases Nat.lt_or_ge m.log2 23 with h | h
+          · exact h
+          · have : 2 ^ 23 ≤ 2 ^ m.log2 := Nat.pow_le_pow_right (by decide) h
+            omega
+        generalize m.log2 = k at hk1 hk2 hk
+        have hfr : (m - 2 ^ k) * 2 ^ (52 - k) < 2 ^ 52 := by
+          have h1 : m - 2 ^ k < 2 ^ k := by rw [Nat.pow_succ] at hk2; omega
+          have hp : 0 < 2 ^ (52 - k) := Nat.pos_of_ne_zero (by simp)
+          have h2 : (m - 2 ^ k) * 2 ^ (52 - k) < 2 ^ k * 2 ^ (52 - k) := Nat.mul_lt_mul_of_pos_right h1 hp
+          rw [← Nat.pow_add] at h2
+          have : k + (52 - k) = 52 := by omega
+          rw [this] at h2; exact h2
+        generalize (m - 2 ^ k) * 2 ^ (52 - k) = fr at hfr
+        omega
+    · cases h; omega
+
+/-- **bound_float_finite.**  Whatever the packet, the value `bindStmtArgs`
+    stores for a FLOAT or DOUBLE parameter is a finite float64: NaN and the
+    infinities are refused (fix aa6cf9f), and a FLOAT is widened to the double
+    it denotes.  So `float_param_numeric_literal` applies to every float
+    argument a client can bind. -/
+theorem bound_float_finite (tp : UInt8) (u : Bool) (pv : Bytes) (pos : Int) (d : Bool) (bits : Nat) (p : Int)
+    (h : bindOne tp u pv pos = .ok (.float d bits, p)) :
+    d = true ∧ StmtGoFloat.finite true bits = true := by
+  unfold bindOne at h
+  have hint : ∀ w, bindInt pv pos w u ≠ .ok (.float d bits, p) := by
+    intro w hw
+    unfold bindInt at hw
+    split at hw
+    · cases hw
+    · cases hg : goSlice pv pos (pos + ↑w) with
+      | ok b => rw [hg] at hw; simp [ofR, bind, R.bind] at hw; split at hw <;> cases hw.1
+      | fail => rw [hg] at hw; simp [ofR, bind, R.bind] at hw
+      | panic => rw [hg] at hw; simp [ofR, bind, R.bind] at hw
+  have htemp : ∀ f, bindTemporal f pv pos ≠ .ok (.float d bits, p) := by
+    intro f hw
+    unfold bindTemporal at hw
+    split at hw
+    · cases hw
+    · cases hg : goIdx pv pos with
+      | fail => rw [hg] at hw; simp [ofR, bind, O.bind] at hw
+      | panic => rw [hg] at hw; simp [ofR, bind, O.bind] at hw
+      | ok nb =>
+        rw [hg] at hw
+        simp only [ofR, bind, O.bind] at hw
+        split at hw
+        · cases hw
+        · cases hs : goSlice pv (pos + 1) (pos + 1 + ↑nb.toNat) with
+          | fail => rw [hs] at hw; simp at hw
+          | panic => rw [hs] at hw; simp at hw
+          | ok dd =>
+            rw [hs] at hw
+            simp only at hw
+            cases hf : f nb.toNat dd with
+            | ok t => rw [hf] at hw; simp at hw
+            | err e => rw [hf] at hw; simp at hw
+            | panic => rw [hf] at hw; simp at hw
+  by_cases h6 : tp = 6
+  · rw [if_pos h6] at h; cases h
+  rw [if_neg h6] at h
+  by_cases h1 : tp = 1
+  · rw [if_pos h1] at h; exact absurd h (hint _)
+  rw [if_neg h1] at h
+  by_cases h2 : tp = 2 ∨ tp = 13
+  · rw [if_pos h2] at h; exact absurd h (hint _)
+  rw [if_neg h2] at h
+  by_cases h3 : tp = 9 ∨ tp = 3
+  · rw [if_pos h3] at h; exact absurd h (hint _)
+  rw [if_neg h3] at h
+  by_cases h8 : tp = 8
+  · rw [if_pos h8] at h; exact absurd h (hint _)
+  rw [if_neg h8] at h
+  by_cases h4 : tp = 4
+  · rw [if_pos h4] at h
+    split at h
+    · cases h
+    · cases hg : goSlice pv pos (pos + 4) with
+      | fail => rw [hg] at h; simp [ofR, bind, O.bind] at h
+      | panic => rw [hg] at h; simp [ofR, bind, O.bind] at h
+      | ok b =>
+        rw [hg] at h
+        simp only [ofR, bind, O.bind] at h
+        cases hf : f32to64 (leNat b) with
+        | none => rw [hf] at h; cases h
+        | some b64 =>
+          rw [hf] at h
+          simp only [O.ok.injEq, Prod.mk.injEq, Arg.float.injEq] at h
+          obtain ⟨⟨rfl, rfl⟩, _⟩ := h
+          exact ⟨rfl, f32to64_finite _ _ hf⟩
+  rw [if_neg h4] at h
+  by_cases h5 : tp = 5
+  · rw [if_pos h5] at h
+    split at h
+    · cases h
+    · cases hg : goSlice pv pos (pos + 8) with
+      | fail => rw [hg] at h; simp [ofR, bind, O.bind] at h
+      | panic => rw [hg] at h; simp [ofR, bind, O.bind] at h
+      | ok b =>
+        rw [hg] at h
+        simp only [ofR, bind, O.bind] at h
+        split at h
+        · cases h
+        · rename_i hfin
+          simp only [O.ok.injEq, Prod.mk.injEq, Arg.float.injEq] at h
+          obtain ⟨⟨rfl, rfl⟩, _⟩ := h
+          refine ⟨rfl, ?_⟩
+          show decide (StmtGoFloat.expField true (leNat b) ≠ 2 ^ StmtGoFloat.expbits true - 1) = true
+          simp only [StmtGoFloat.expField, StmtGoFloat.mantbits, StmtGoFloat.expbits, if_true, decide_eq_true_eq]
+          omega
+  rw [if_neg h5] at h
+  by_cases h10 : tp = 10 ∨ tp = 14
+  · rw [if_pos h10] at h; exact absurd h (htemp _)
+  rw [if_neg h10] at h
+  by_cases h11 : tp = 11
+  · rw [if_pos h11] at h; exact absurd h (htemp _)
+  rw [if_neg h11] at h
+  by_cases h7 : tp = 7 ∨ tp = 12
+  · rw [if_pos h7] at h; exact absurd h (htemp _)
+  rw [if_neg h7] at h
+  split at h
+  · split at h
+    · cases h
+    · cases hr : LenEnc.readLenEncStringAsBytes pv pos with
+      | fail => rw [hr] at h; simp [ofR, bind, O.bind] at h
+      | panic => rw [hr] at h; simp [ofR, bind, O.bind] at h
+      | ok x =>
+        rw [hr] at h
+        obtain ⟨v, q, isNull⟩ := x
+        simp only [ofR, bind, O.bind] at h
+        split at h <;> simp at h
+  · cases h
+
+/-- the hypothesis of `bound_float_finite` is satisfiable: the DOUBLE 0.1, and
+    a FLOAT widened to the double it denotes; an infinity is refused -/
+example : bindOne 5 false [0x9a, 0x99, 0x99, 0x99, 0x99, 0x99, 0xb9, 0x3f] 0 = .ok (.float true 0x3FB999999999999A, 8) := by
+  decide
+example : bindOne 4 false [0xcd, 0xcc, 0xcc, 0x3d] 0 = .ok (.float true 0x3FB99999A0000000, 4) := by decide
+example : bindOne 5 false [0, 0, 0, 0, 0, 0, 0xf0, 0x7f] 0 = .err .badFloat := by decide
+
+/-! ### the value of a float parameter -/
+
+open GaeaVerif.StmtGoFloat GaeaVerif.StmtFloat in
+/-- **float_param_within_half_ulp.**  The literal written for a finite
+    non-zero float argument is its sign and a numeric literal that denotes a
+    decimal `M × 10^E` (`readUNum`) lying between the midpoints to the two
+    neighbouring floats, a midpoint itself only when the float's mantissa is
+    even (`WithinHalfUlp`): exactly the decimals that rounding to nearest, ties
+    to even, maps back to this float. -/
+theorem float_param_within_half_ulp (nbe dbl : Bool) (bits : Nat) (hf : finite dbl bits = true)
+    (hm : (mantExp dbl bits).1 ≠ 0) :
+    renderArg nbe (.float dbl bits) = (if negative dbl bits then [0x2d] else []) ++ fmtMagnitude dbl bits ∧
+    ∃ M E, readUNum (fmtMagnitude dbl bits) = some (M, E) ∧ WithinHalfUlp dbl bits M E := by
+  refine ⟨?_, float_literal_within_half_ulp dbl bits hm⟩
+  show fmtV dbl bits = _
+  unfold fmtV; rw [if_pos hf]
+
+open GaeaVerif.StmtGoFloat in
+/-- … and a zero is written `0` or `-0`. -/
+theorem float_param_zero (nbe dbl : Bool) (bits : Nat) (hf : finite dbl bits = true)
+    (hm : (mantExp dbl bits).1 = 0) :
+    renderArg nbe (.float dbl bits) = (if negative dbl bits then [0x2d] else []) ++ [0x30] := by
+  show fmtV dbl bits = _
+  unfold fmtV fmtMagnitude; rw [if_pos hf, if_pos hm]
+
+open GaeaVerif.StmtGoFloat GaeaVerif.StmtFloat in
+/-- **Named assumption `ReadsNearestDouble`** (the `float_roundtrip` assumption
+    of DESIGN.md; not proved — the server's reader of numeric literals is not
+    part of the model): `read`, the function from the text of an unsigned
+    numeric literal to the bits of the double the MySQL server takes it for,
+    rounds correctly.  Whenever the text denotes the decimal `M × 10^E`
+    (`readUNum`) and that decimal lies inside the rounding interval of a finite
+    non-zero double (`WithinHalfUlp`: between the midpoints to its neighbours, a
+    midpoint only for an even mantissa), the server reads that double.  This is
+    IEEE 754 round-to-nearest-even conversion, which MySQL's `my_strtod`
+    implements.  (The intervals of different doubles do not overlap — neighbours
+    share a midpoint and differ in the parity of their mantissa — so the demand
+    can be met; that is argued here, not proved.) -/
+def ReadsNearestDouble (read : Bytes → Option Nat) : Prop :=
+  ∀ (text : Bytes) (M : Nat) (E : Int) (bits : Nat),
+    bits < 2 ^ 63 → finite true bits = true → (mantExp true bits).1 ≠ 0 →
+    readUNum text = some (M, E) → WithinHalfUlp true bits M E → read text = some bits
+
+open GaeaVerif.StmtGoFloat GaeaVerif.StmtFloat in
+/-- **float_param_roundtrip** (under the named assumption): a server that
+    converts numeric literals with correct rounding reads the literal of every
+    finite non-zero double argument back as exactly that double — the magnitude
+    from the digits, the sign from the `-` in front (`float_param_within_half_ulp`).
+    Together with `bound_float_finite` (every bound FLOAT / DOUBLE is such a
+    double, or a zero: `float_param_zero`) this is the value half of C15 for
+    floats; the structure half is `C15_rewrite_structure_full`. -/
+theorem float_param_roundtrip (read : Bytes → Option Nat) (hread : ReadsNearestDouble read)
+    (bits : Nat) (hb : bits < 2 ^ 63) (hf : finite true bits = true) (hm : (mantExp true bits).1 ≠ 0) :
+    read (fmtMagnitude true bits) = some bits := by
+  obtain ⟨M, E, h1, h2⟩ := float_literal_within_half_ulp true bits hm
+  exact hread _ M E bits hb hf hm h1 h2
+
+open GaeaVerif.StmtGoFloat GaeaVerif.StmtFloat in
+/-- The magnitude printed does not depend on the sign bit: a negative double is
+    `-` followed by the literal of its absolute value. -/
+theorem float_param_sign (bits : Nat) (hb : bits < 2 ^ 63) :
+    fmtMagnitude true (bits + 2 ^ 63) = fmtMagnitude true bits ∧
+    negative true (bits + 2 ^ 63) = true ∧ negative true bits = false := by
+  have he : expField true (bits + 2 ^ 63) = expField true bits := by
+    simp only [expField, mantbits, expbits, if_true]; omega
+  have hfr : fracField true (bits + 2 ^ 63) = fracField true bits := by
+    simp only [fracField, mantbits, if_true]; omega
+  have hme : mantExp true (bits + 2 ^ 63) = mantExp true bits := by
+    unfold mantExp; rw [he, hfr]
+  refine ⟨?_, ?_, ?_⟩
+  · unfold fmtMagnitude shortestOf; rw [hme]
+  · simp only [negative, mantbits, expbits, if_true, decide_eq_true_eq]; omega
+  · simp only [negative, mantbits, expbits, if_true, decide_eq_false_iff_not]; omega
+
+section FloatExamples
+open GaeaVerif.StmtGoFloat GaeaVerif.StmtFloat
+
+/-- 0.1, 1.5, -1e+20, 5e-324 (the smallest subnormal) and the largest double:
+    what is written, and what `readUNum` takes it for -/
+example : fmtV true 0x3FB999999999999A = [0x30, 0x2e, 0x31] ∧ readUNum [0x30, 0x2e, 0x31] = some (1, -1) := by decide
+example : fmtV true 0x3FF8000000000000 = [0x31, 0x2e, 0x35] := by decide
+example : fmtV true 0xC415AF1D78B58C40 = [0x2d, 0x31, 0x65, 0x2b, 0x32, 0x30] ∧
+    readUNum [0x31, 0x65, 0x2b, 0x32, 0x30] = some (1, 20) := by decide
+set_option maxRecDepth 100000 in
+example : fmtV true 1 = [0x35, 0x65, 0x2d, 0x33, 0x32, 0x34] ∧
+    readUNum [0x35, 0x65, 0x2d, 0x33, 0x32, 0x34] = some (5, -324) := by decide
+
+instance (lo up : Nat) (inc : Bool) (x : Nat) : Decidable (InB lo up inc x) := by unfold InB; infer_instance
+instance (dbl : Bool) (bits M : Nat) (E : Int) : Decidable (WithinHalfUlp dbl bits M E) := by
+  unfold WithinHalfUlp; infer_instance
+
+/-- `WithinHalfUlp` says something: 0.1 = 1 × 10^-1 lies in the rounding interval
+    of the double 0x3FB999999999999A, and in that of neither neighbour; 0.3 does
+    not lie in the interval of the double nearest to 0.1 + 0.2 -/
+example : WithinHalfUlp true 0x3FB999999999999A 1 (-1) ∧ ¬ WithinHalfUlp true 0x3FB9999999999999 1 (-1) ∧
+    ¬ WithinHalfUlp true 0x3FB999999999999B 1 (-1) ∧ ¬ WithinHalfUlp true 0x3FD3333333333334 3 (-1) := by decide
+
+/-- the hypotheses of `float_param_roundtrip` are satisfiable -/
+example : (0x3FB999999999999A : Nat) < 2 ^ 63 ∧ finite true 0x3FB999999999999A = true ∧
+    (mantExp true 0x3FB999999999999A).1 ≠ 0 := by decide
+
+/-- NaN and the infinities are words, not numbers: the reason they are refused when bound -/
+example : fmtV true 0x7FF8000000000000 = [0x4e, 0x61, 0x4e] ∧ finite true 0x7FF8000000000000 = false ∧
+    readUNum [0x4e, 0x61, 0x4e] = none := by decide
+
+end FloatExamples
 
 end GaeaVerif.C15
